@@ -69,7 +69,7 @@ func (m *monC08) Step(f *Flow) {
 			w.Violate("C08", "malformed-stream", "parse", "conn%d: bytes written are not a sequence of whole packets: %v (offset %d of %d)", c.id, c.ParseErr, c.parsed, len(c.C2B))
 		}
 	}
-	for _, r := range f.Reqs {
+	for _, r := range f.ActiveReqs {
 		if r.Ret == 0 || m.reqDone[r.Idx] {
 			continue
 		}
@@ -360,6 +360,23 @@ func (m *monC18) Step(f *Flow) {
 	}
 }
 
+// readerInvokes runs when the application calls ReadSlices again: requests
+// issued after a failed connect attempt must have failed with ErrDown by now
+// instead of waiting for this retry (the task had its turns: a refusal takes
+// a handful of steps).
+func (m *monC18) readerInvokes(f *Flow) {
+	w := f.W
+	for _, r := range f.ActiveReqs {
+		if r.Ret != 0 || r.Dead || !r.AfterFailedAttempt || r.Invoke == 0 || r.QuitK == quitClosed || r.QuitAt != 0 {
+			continue
+		}
+		if f.S.Releases[r.Task]-r.relAtInvoke >= 12 {
+			w.Violate("C18", "blocks-after-failed-attempt", rkNames[r.Kind], "%s #%d was issued at step %d after a failed connect attempt and is still waiting at step %d when the application retries (released %d times since): want ErrDown", rkNames[r.Kind], r.Idx, r.Invoke, w.Steps, f.S.Releases[r.Task]-r.relAtInvoke)
+		}
+		r.AfterFailedAttempt = false
+	}
+}
+
 func (m *monC18) Final(f *Flow) {
 	w := f.W
 	var refusedSteps []int
@@ -496,14 +513,14 @@ func (m *monC17) Wire(f *Flow, c *Conn, p *WirePkt) {
 				w.Violate("C17", "identifier-collision", fmt.Sprintf("q%d", p.QoS), "PUBLISH %#04x for publish #%d while publish #%d holds the same identifier unfinished", p.ID, pb.Idx, o.Idx)
 			}
 		}
-		for _, r := range f.Reqs {
+		for _, r := range f.ActiveReqs {
 			if r.ID == p.ID && r.WireStep != 0 && r.Ret == 0 {
 				w.Violate("C17", "identifier-shared", "publish-vs-request", "PUBLISH %#04x shares its identifier with pending request #%d", p.ID, r.Idx)
 			}
 		}
 	case SUBSCRIBE, UNSUBSCRIBE:
 		me := f.reqByMarker[p.Filters[0]]
-		for _, r := range f.Reqs {
+		for _, r := range f.ActiveReqs {
 			if r != me && r.ID == p.ID && r.WireStep != 0 && r.Ret == 0 {
 				w.Violate("C17", "identifier-collision", "request", "%s %#04x while pending request #%d holds the same identifier", typeNames[p.Type], p.ID, r.Idx)
 			}
@@ -599,6 +616,14 @@ func (m *monC17) Step(f *Flow) {
 			alive++
 		}
 		if alive < max[pb.QoS] {
+			// a persisted publish that returned an error must not hold a
+			// slot (C14: "was not enqueued")
+			for _, o := range f.Pubs {
+				if o.QoS == pb.QoS && o.Gen == pb.Gen && o.Ret != 0 && o.Ret <= pb.Invoke && o.Err != nil && !errors.Is(o.Err, mqtt.ErrMax) && !o.Zombie {
+					w.Violate("C14", "rejected-but-enqueued", fmt.Sprintf("q%d", pb.QoS), "publish #%d got ErrMax with at most %d transfers of its level in flight (maximum %d) after publish #%d had returned %q: the rejected publish holds a slot", pb.Idx, alive, max[pb.QoS], o.Idx, shortErr(o.Err))
+					break
+				}
+			}
 			w.Violate("C17", "errmax-without-excess", fmt.Sprintf("q%d", pb.QoS), "publish #%d got ErrMax although at most %d transfers of its level were in flight during the call (maximum %d)", pb.Idx, alive, max[pb.QoS])
 		}
 		if pb.NetParks != 0 {
@@ -719,7 +744,7 @@ func (m *monC11) Step(f *Flow) {
 	if m.done == nil {
 		m.done = map[int]bool{}
 	}
-	for _, r := range f.Reqs {
+	for _, r := range f.ActiveReqs {
 		if r.Ret == 0 || m.done[r.Idx] {
 			continue
 		}
